@@ -358,7 +358,7 @@ fn shape_of(t: &str) -> String {
 pub fn check(rep: &Reporter) {
 	let thorough = rep.tier.thorough();
 	rep.set_rule(
-		"SCHED: client histories (1–3 front-end operations out of call / batch / subscribe / notification / late call) × one transport fault of each kind {n-th send fails, receive error after k messages, peer close, non-JSON message, response with unknown id, (thorough) empty array, array with non-numeric id, empty object} injected at every step, explored over all release orders of {front-end callers, tx.send, tx.close, message deliveries, the client's send task / read task / shutdown watcher (cfg points)} up to the stated deviation bound; plus ENUM: ~100 hostile server messages (ids at u64 boundaries, 10⁴-element array, nesting depth 200, token soup) each with 0 and 1 pending call, followed by a sentinel call. States = decision-tree nodes, transitions = point releases; every execution is an implementation execution.",
+		"SCHED: client histories (1–3 front-end operations out of call / batch / subscribe / subscribe-then-drop / subscribe_to_method / notification / late call) × one transport fault of each kind {n-th send fails, receive error after k messages, peer close, non-JSON message, response with unknown id, (thorough) empty array, array with non-numeric id, empty object} injected at every step, explored over all release orders of {front-end callers, tx.send, tx.close, message deliveries, the client's send task / read task / shutdown watcher (cfg points)} up to the stated deviation bound; plus ENUM: ~100 hostile server messages (ids at u64 boundaries, 10⁴-element array, nesting depth 200, token soup) each with 0 and 1 pending call, followed by a sentinel call. States = decision-tree nodes, transitions = point releases; every execution is an implementation execution.",
 	);
 	rep.assume("request_timeout is 1 h and time is virtual, so 'prompt' = before quiescence; the harness transport reports peer close as a receive error like the WebSocket transport does");
 	let bound = if thorough { 3 } else { 2 };
